@@ -94,13 +94,21 @@ func genRoute(t *rapid.T, prof IngressProfile, path string, i int) RouteSpec {
 		case 1:
 			m.Methods = []string{"GET"}
 		}
-		switch rapid.IntRange(0, 4).Draw(t, "hosts") {
+		switch rapid.IntRange(0, 8).Draw(t, "hosts") {
 		case 0:
 			m.Hosts = []string{"hooks.example.com"}
 		case 1:
 			m.Hosts = []string{"*.example.com"}
 		case 2:
 			m.Hosts = []string{"*"}
+		case 3: // lists: every entry counts, whatever its position
+			m.Hosts = []string{"*.example.com", "example.com"}
+		case 4:
+			m.Hosts = []string{"*.hooks.example.com", "other.test", "api.example.com"}
+		case 5:
+			m.Hosts = []string{"other.test", "*.example.com"}
+		case 6:
+			m.Hosts = []string{"*.test", "*.example.com", "hooks.example.com"}
 		}
 		if rapid.IntRange(0, 3).Draw(t, "hdr") == 0 {
 			m.Headers = []KV{{"X-Kind", "push"}}
